@@ -92,6 +92,9 @@ int World::exec_abuse(const Op &op) {
             ATTEMPT((void) rd.indexOf(1e300, PositionMatch::LessOrEqual)); ATTEMPT((void) rd.indexOf(-1e300, PositionMatch::GreaterOrEqual));
             ATTEMPT({ std::vector<double> tk = rd.ticks(); (void) rd.indexOf(2.0, 1.0, tk, RangeMatch::Inclusive); });
             ATTEMPT((void) rd.indexOf({0.0, 1.0}, {1.0}, RangeMatch::Exclusive));
+            // an empty tick vector handed in by the caller
+            ATTEMPT((void) rd.indexOf(0.0, 1.0, std::vector<double>(), RangeMatch::Inclusive)); ATTEMPT((void) rd.indexOf(-5.0, -4.0, std::vector<double>(), RangeMatch::Exclusive));
+            ATTEMPT((void) rd.indexOf(1e9, 2e9, std::vector<double>(), RangeMatch::Inclusive));
             ATTEMPT((void) rd.positionInRange(0.5));
         } else if (t == DimensionType::Sample) {
             SampledDimension sd = d.asSampledDimension();
